@@ -369,7 +369,10 @@ fn op_fenc(args: &[&str]) -> String {
         Ok(v) => v,
         Err(e) => return format!("BADVAL {}", e),
     };
-    let mut data = [0u8; 16];
+    // the field is written into a buffer that is all ones or all zeros (chosen by the length of the value text, so that a
+    // run is reproducible): the write must set exactly its own bits whatever was there before
+    let bg: u8 = if args[1].len() % 2 == 0 { 0xFF } else { 0x00 };
+    let mut data = [bg; 16];
     let mut asm = Assembler::new(&mut data, 0);
     match glue_gen::fenc(args[0], &v, &mut asm) {
         None => "BADOP field".into(),
